@@ -162,20 +162,23 @@ def frameAt (p : Nat) (prev : Option Nat) (n : Nat) : Kids → Nat → Option Fr
     of `K` (`n`: the frame of the first call of `K`): it follows LAST_CHILD_SCOPE — through the
     later steps of the chain the call belongs to, then into the head of the last chain segment of
     the chain's last step — until a call without sub-evaluations, or a call that has several failed
-    segments the last of which is among them (then the branches are shown instead) -/
+    segments the last of which is among them (then the branches are shown instead), or a call whose
+    LAST_CHILD_SCOPE has no CUR_ERROR (the last child returned normally: the chain it starts did not
+    raise; nothing below it is part of the error) -/
 def rowsAt (n : Nat) : Kids → Nat → List Row
   | .nil, _ => []
   | .cons _ _ ks res rest, j =>
     if j = n then
       if rest.startsChained then
-        ⟨n, segRes rest, []⟩ :: rowsAt (n + 1 + ks.size) rest (n + 1 + ks.size)
+        ⟨n, segRes rest, []⟩ ::
+          (if (segRes rest).isNone then [] else rowsAt (n + 1 + ks.size) rest (n + 1 + ks.size))
       else
         match lastHead none (n + 1) ks with
         | none => [⟨n, res, []⟩]
         | some h =>
           ⟨n, res, if failedHeads n none (n + 1) ks == [h] then [] else failedHeads n none (n + 1) ks⟩ ::
             (if (if failedHeads n none (n + 1) ks == [h] then [] else failedHeads n none (n + 1) ks).contains h
-              then [] else rowsAt (n + 1) ks h)
+              then [] else if (lastRes ks).isNone then [] else rowsAt (n + 1) ks h)
     else if j < n + 1 + ks.size then rowsAt (n + 1) ks j
     else rowsAt (n + 1 + ks.size) rest j
 
